@@ -66,6 +66,9 @@ CHECKS = {
     "C18": ("exploration", "runtime monitoring: read-instant hook (harness wrapper on ServiceInfo._process_record_threadsafe) + replay model of unexpired reads, deadline/transmission monitors in virtual time",
             "Lookups are started against cache states from {SRV,TXT,A,AAAA} x {absent,fresh,stale,expired-unpurged} with missing records arriving on a grid of offsets up to and past the deadline; return time, success criterion, the reported fields (replayed from exactly the records handed to the object, skipping expired ones), cache-only path without transmissions and QU-then-QM progression are checked.",
             "The read instant is observed by a wrapper installed from the harness; a flush-bit record legitimately re-stamps other cached records for one second.", "2/C18"),
+    "C07": ("fault_enumeration", "runtime monitoring with single-loss fault enumeration: multi-host scenarios of real instances in the virtual-time simulator, re-run once per dropped datagram under identical seeds; bounded-settling oracle on browser live sets and lookups started from Added callbacks",
+            "Each scenario (2..5 real instances, registrations/updates/unregistrations/closes at arbitrary times, browsers started before/during/after, 0..100 ms per-receiver jitter, 0..20 % duplication) is run loss-free and then once per chosen datagram with that datagram dropped for all or one receiver (quick: stratified sample per datagram class; thorough: every datagram). 15 s after the last operation every browser must report exactly the registered instances and lookups from Added callbacks must have resolved advertised data.",
+            "'Eventually' is restated as 15 virtual seconds after the last scripted operation; exactly one loss per run; lookup fields may come from different advertised versions of an updated service; an empty TXT is accepted only when the TXT record's TTL may have run out.", "2/C07"),
 }
 
 NOT_YET = {}
